@@ -110,19 +110,25 @@ func (p *Parser) AppendLastReturnT() {
 		return
 	}
 
-	for _, candidateT := range p.lastReturnT {
-		if candidateT.IsMatchType(p.lastEvaluatedT.(*base.T)) {
-			return
-		}
-	}
-
-	if p.lastEvaluatedT.(*base.T) == nil {
-		p.lastReturnT = append(p.lastReturnT, *base.MakeNil())
+	// the last value can also be a list (multiple assignment): no single return type
+	lastEvaluatedT, ok := p.lastEvaluatedT.(*base.T)
+	if !ok {
+		p.lastReturnT = append(p.lastReturnT, *base.MakeUntyped())
 
 		return
 	}
 
-	lastEvaluatedT := p.lastEvaluatedT.(*base.T)
+	for _, candidateT := range p.lastReturnT {
+		if candidateT.IsMatchType(lastEvaluatedT) {
+			return
+		}
+	}
+
+	if lastEvaluatedT == nil {
+		p.lastReturnT = append(p.lastReturnT, *base.MakeNil())
+
+		return
+	}
 
 	if lastEvaluatedT.IsUnionType() {
 		p.lastReturnT = append(p.lastReturnT, lastEvaluatedT.GetVariants()...)
